@@ -28,7 +28,11 @@ THEOREMS = ['C11_term_preserves_subspace', 'C11_trajectory_in_subspace', 'C11_le
             'C11_pe_explicit_top_zero', 'C11_pe_explicit_into_Supp', 'C11_pe_mean_tendencies_vanish',
             'C11_pe_implicit_preserve_Supp', 'C11_primeq_trajectory_in_subspace',
             'C11_primeq_leapfrog_trajectory_in_subspace', 'C11_primeq_means_conserved', 'C11_pe_hyps_satisfiable',
-            'C11_fix_time_is_source']
+            'C11_fix_time_is_source',
+            'C11_pe_right_inverse_div_rows', 'C11_pe_H_p_support_from_recurrence', 'C11_pe_H_deriv_mask_from_weights',
+            'C11_pe_explicit_into_Supp_from_recurrence', 'C11_primeq_trajectory_in_subspace_from_recurrence',
+            'C11_primeq_leapfrog_trajectory_in_subspace_from_recurrence', 'C11_primeq_means_conserved_from_inverse',
+            'C11_primeq_leapfrog_means_conserved', 'C11_pe_round2_hyps_satisfiable']
 LEVEL = 'proof'
 LEVEL_TEXT = ('machine-checked theorems (Coq) for every field, every vector space, every step term built from '
               'u, +, scalar *, F, G, G_inv (all integrators of time_integration.py are encoded as such terms, the '
@@ -1049,6 +1053,35 @@ def r_pe_supp(ctx, a):
     want = np.concatenate([np.eye(K), np.zeros((K, K + 1))], axis=1)
     ctx.table_obligation('pe_H_inv0_div_rows: the divergence rows of inv(implicit matrix) at total wavenumber 0 are the unit rows [I 0 0]',
                          bool(np.all(np.abs(inv0[:K] - want) <= 1e-13 * max(1.0, np.abs(inv0).max()))), {'rows': inv0[:K].tolist()})
+    # round 2: the more primitive facts from which C11_pe_*_from_recurrence / C11_pe_right_inverse_div_rows /
+    # C11_pe_H_deriv_mask_from_weights derive the hypotheses above
+    n = 2 * K + 1
+    ctx.table_obligation('pe_H_inv0_right_inverse: implicit_matrix(eta)[l=0] @ inv(implicit_matrix(eta))[l=0] = I (to rounding)',
+                         bool(np.abs(imat[0] @ inv0 - np.eye(n)).max() <= 1e-12 * max(1.0, np.abs(imat[0]).max() * np.abs(inv0).max())))
+    ctx.table_obligation('implicit matrix at total wavenumber 0: the divergence rows are exactly the unit rows [I 0 0] (laplacian eigenvalue 0)',
+                         bool(np.array_equal(imat[0][:K], want)), {'rows': imat[0][:K].tolist()})
+    import importlib
+    al = importlib.import_module('dinosaur.associated_legendre'); shm = importlib.import_module('dinosaur.spherical_harmonic')
+    Mw = gd['M']; Jn = gd['J']
+    xs, _wp = shm.get_latitude_nodes(g.latitude_nodes, g.latitude_spacing)
+    ev = np.asarray(al.evaluate(n_m=Mw, n_l=L, x=xs), dtype=np.float64)                    # (M, J, L)
+    p_impl = np.asarray(bs.p, dtype=np.float64)
+    if gd['impl'] == 'real':
+        rows = (np.arange(R) + 1) // 2
+        ok_p = p_impl.shape == (R, Jn, L) and np.array_equal(p_impl, ev[rows])
+        mabs = rows
+    else:
+        ok_p = (p_impl.shape[0] >= Mw and np.array_equal(p_impl[:Mw, :Jn, :L], ev)
+                and not p_impl[Mw:].any() and not p_impl[:, Jn:].any() and not p_impl[:, :, L:].any())
+        mabs = np.arange(R) // 2
+    ctx.table_obligation('pe_p_is_evaluate: basis.p row a is (bit for bit) row |m(a)| of associated_legendre.evaluate(M, L, sin_lat) (zero padding in the fast layout)', bool(ok_p))
+    drw = g._derivative_recurrence_weights
+    wa, _wb = drw() if callable(drw) else drw
+    wa = np.asarray(wa, dtype=np.float64)
+    diag = [(i, int(mabs[i])) for i in range(R) if mabs[i] < L and (gd['impl'] == 'real' or i < 2 * Mw)]
+    ctx.table_obligation('pe_H_a_diag: the recurrence weight a[i, l] is exactly 0 at l = |m(i)|',
+                         bool(wa.shape == (R, C) and all(wa[i, l] == 0.0 for i, l in diag)) and len(diag) > 0)
+    ctx.oracle('input distribution: the recurrence weight a is non-zero somewhere above the diagonal', bool(np.abs(wa).max() > 0))
     amp = dict(vorticity=0.1, divergence=0.05, temperature_variation=2.0, log_surface_pressure=0.05, q=0.01)
     def state(mode):
         def fld(name, lead):
